@@ -4,10 +4,28 @@ A case may carry "host": the time zone of the machine the scheduler runs on (a P
 "EST5EDT", "IST-5:30", "NZST-12NZDT", or an IANA name resolved by the C library; absent / None = "UTC", what the harness
 environment sets).  It is installed with os.environ["TZ"] + time.tzset() before the real code is called, and the
 controlled clock answers exactly like the real datetime class on such a host: now(tz) / utcnow() report the instant,
-now() WITHOUT tz the naive local wall clock of the host zone (C library localtime(), fold included)."""
+now() WITHOUT tz the naive local wall clock of the host zone (C library localtime(), fold included).
+
+A case {"type": "group", "group": [element, ...], "mode": "interleaved" | "build-first"} is a back-to-back group: what ONE
+long-lived scheduler process does with the schedules of one night - several ScheduledTask objects are constructed (the
+real pydantic model, validators included, from the spelled datetime of every element) and evaluated one after the other.
+Elements are ordinary time cases plus: spell.wall / spell.fold (the wall-clock fields and the PEP 495 fold given to the
+datetime constructor directly - zoneinfo / dateutil zones, whose tzinfo object is shared by every element of the group
+with the same (kind, zone, tzid), as ZoneInfo(key) / tz.gettz(name) share it in an application); "obj" (elements with
+the same number hand the very same datetime OBJECT to the model, elements with different numbers equal-or-not distinct
+objects); "task" (elements with the same number evaluate the very same ScheduledTask again - what the loop does every
+minute); "via": "iso" (the time reaches the model as an ISO 8601 string with its UTC offset, as a schedule source that
+stores JSON hands it over).  "build-first" constructs every task (in element order of `build_order`) before the first
+evaluation - a schedule source returning its list - "interleaved" constructs each task right before its evaluation.
+The whole group runs in a forked child of the driver process: its observation does not depend on what the cases that
+happened to share the driver process left behind, so a replay of the group alone sees the same thing.  Every element's
+observation carries `spelled_us`: the instant of an equal datetime built separately (fresh tzinfo objects) that taskiq
+never sees - the harness compares it with the T it computed on its own when generating (harness self-check)."""
 import datetime as dt
+import json
 import os
 import time
+import traceback
 import zoneinfo
 
 import pytz
@@ -59,9 +77,36 @@ def setup(opts):
     run.datetime = VDT
 
 
-def spell(T_us, sp):
+def pep495_zone(kind, zone):
+    """a NEW tzinfo object of a PEP 495 zone (utcoffset() honours fold), read from pytz's own copy of the zone data"""
+    path = os.path.join(os.path.dirname(pytz.__file__), "zoneinfo", zone)
+    if kind == "zoneinfo":
+        return zoneinfo.ZoneInfo.from_file(open(path, "rb"), key=zone)
+    if kind == "dateutil":
+        import dateutil.tz
+        return dateutil.tz.tzfile(path)
+    raise ValueError(kind)
+
+
+def spell(T_us, sp, tzc=None):
+    """the datetime a case spells.  tzc: the tzinfo objects of the surrounding group ((kind, zone, tzid) -> object)"""
+    d = spell0(T_us, sp, tzc)
+    if sp.get("fold") and "wall" not in sp:   # fold=1 on a value whose zone does not look at it: the same instant
+        d = d.replace(fold=1)
+    return d
+
+
+def spell0(T_us, sp, tzc):
     tt = EP + dt.timedelta(microseconds=T_us)
     k = sp["kind"]
+    if "wall" in sp:      # wall-clock fields + fold given to the constructor, the zone object shared inside a group
+        key = (k, sp["zone"], sp.get("tzid", 0))
+        tz = None if tzc is None else tzc.get(key)
+        if tz is None:
+            tz = pep495_zone(k, sp["zone"])
+            if tzc is not None:
+                tzc[key] = tz
+        return dt.datetime(*sp["wall"], fold=sp.get("fold", 0), tzinfo=tz)
     if k == "naive":
         return tt.replace(tzinfo=None)
     if k == "utc":
@@ -93,16 +138,99 @@ def pytz_offset_us(zone, us):
 _ZI = {}
 
 
+def instant_us(d):
+    """the instant an aware datetime denotes (naive = UTC), by datetime's own arithmetic (utcoffset(), fold honoured)"""
+    if d.tzinfo is None:
+        d = d.replace(tzinfo=dt.timezone.utc)
+    return (d - EP) // dt.timedelta(microseconds=1)
+
+
+def observe(c, t):
+    """one evaluation of the real get_task_delay on task t at the element's `now`"""
+    NOW[0] = EP + dt.timedelta(microseconds=c["now"])
+    r = run.get_task_delay(t)
+    host = {"host_off_us": host_offset_us(c["now"]), "local_now": VDT.now().isoformat()} if c.get("host") else {}
+    if r is not None and type(r) is not int:
+        return dict(host, delay=repr(r), badtype=True)
+    return dict(host, delay=r)
+
+
+def make_task(value):
+    return ScheduledTask(task_name="t", labels={}, args=[], kwargs={}, time=value)
+
+
+def run_group(c):
+    elems = c["group"]
+    set_host(elems[0].get("host") if elems else None)   # one scheduler process has one system zone
+    fresh = []
+    for e in elems:   # the harness' own reading of every spelled value, on objects taskiq never sees
+        try:
+            fresh.append(instant_us(spell(e["T"], e["spell"], {})))
+        except Exception:
+            fresh.append(None)
+    tzc, objs, tasks, built, out = {}, {}, {}, {}, [None] * len(elems)
+
+    def build(k):
+        e = elems[k]
+        try:
+            if e.get("task") is not None and e["task"] in tasks:
+                built[k] = tasks[e["task"]]
+                return
+            d = objs.get(e.get("obj")) if e.get("obj") is not None else None
+            if d is None:
+                d = spell(e["T"], e["spell"], tzc)
+                if e.get("obj") is not None:
+                    objs[e["obj"]] = d
+            built[k] = make_task(d.isoformat() if e.get("via") == "iso" else d)
+            if e.get("task") is not None:
+                tasks[e["task"]] = built[k]
+        except Exception:  # a crash of one element is that element's observation; the rest of the group still runs
+            out[k] = {"_crash": traceback.format_exc()[-2000:]}
+
+    if c.get("mode") == "build-first":
+        for k in c.get("build_order") or range(len(elems)):
+            build(k)
+    for k, e in enumerate(elems):
+        if k not in built and out[k] is None:
+            build(k)
+        if out[k] is None:
+            try:
+                out[k] = observe(e, built[k])
+            except Exception:
+                out[k] = {"_crash": traceback.format_exc()[-2000:]}
+        out[k]["spelled_us"] = fresh[k]
+    return {"group": out}
+
+
+def forked(fn):
+    """fn() in a forked child of this process; its JSON-able result comes back through a pipe"""
+    rd, wr = os.pipe()
+    pid = os.fork()
+    if pid == 0:
+        try:
+            os.close(rd)
+            try:
+                data = json.dumps(fn(), default=str)
+            except BaseException:
+                data = json.dumps({"_crash": traceback.format_exc()[-2000:]})
+            with os.fdopen(wr, "w") as f:
+                f.write(data)
+        finally:
+            os._exit(0)
+    os.close(wr)
+    with os.fdopen(rd) as f:
+        data = f.read()
+    os.waitpid(pid, 0)
+    return json.loads(data) if data else {"_crash": "the forked group process died without an answer"}
+
+
 def run_case(c, opts):
+    if c["type"] == "group":
+        return forked(lambda: run_group(c))
     NOW[0] = EP + dt.timedelta(microseconds=c["now"])
     set_host(c.get("host"))
     if c["type"] == "time":
-        t = ScheduledTask(task_name="t", labels={}, args=[], kwargs={}, time=spell(c["T"], c["spell"]))
-        r = run.get_task_delay(t)
-        host = {"host_off_us": host_offset_us(c["now"]), "local_now": VDT.now().isoformat()} if c.get("host") else {}
-        if r is not None and type(r) is not int:
-            return dict(host, delay=repr(r), badtype=True)
-        return dict(host, delay=r)
+        return dict(observe(c, make_task(spell(c["T"], c["spell"]))), spelled_us=instant_us(spell(c["T"], c["spell"])))
     if c["type"] == "cron":
         off = c["off"]
         if off is None:
